@@ -576,11 +576,6 @@ def positions(src):
     return out
 
 
-def _no_calls_in_spec(e):
-    """operands of ?? may only call ordinary functions: all helpers are ordinary, nothing to do"""
-    return True
-
-
 def tier_rules(runner, hist, dis, rng, sample=None):
     cat = source_catalogue()
     progs, labels = [], []
@@ -1121,7 +1116,6 @@ def run(tier='quick', seed=0, workdir=None):
     ex = g.program()
     samples.append(treeser.program_src(ex))
     samples.append(treeser.program_src(test_program([('Decl', 'x', 'byte', False, ('Bin', 'Add', ('Var', 'kb'), ('Int', 1)))])))
-    evaluations = n_api + runner.evals + (n_fold - 0)
     nontrivial = len(runner.distinct)
     return {
         'evaluations': n_corpus + n_api + n_rules + n_stmt + n_ov + n_fold + n_rand,
